@@ -8,6 +8,7 @@ STRICT form; the document's own view after every save equals the belief."""
 from harness.common import Run
 from harness.pkg_engine import run_package_property
 from harness import pkg_driver as pd
+from harness.pretty_engine import run_pretty_part
 
 
 def main(tier: str) -> int:
@@ -25,4 +26,6 @@ def main(tier: str) -> int:
     ]
     sources = ["generated"] * 12 + list(pd.TEMPLATES) + [str(p) for p in pd.sample_files()]
     run_package_property(run, tier, prefixes=("C11:", "C03:flat-xml"), sources=sources)
+    # Pretty.tla: the indentation function on every document of a bounded family of labelled trees
+    run_pretty_part(run, tier)
     return run.finish()
